@@ -12,6 +12,7 @@ import OpwVerif.Lemmas.SrcCtlTie
 import OpwVerif.Lemmas.SrcWrapTie
 import OpwVerif.Lemmas.SrcOpwTie
 import OpwVerif.Lemmas.SrcFrameTie
+import OpwVerif.Lemmas.SrcJacTie
 namespace Opw.Tie
 open Opw
 
@@ -180,6 +181,15 @@ theorem frame_is_source' (p1 p2 p3 q1 q2 q3 : V3 R) (tol : R) :
     SrcFrame.frameSrc p1 p2 p3 q1 q2 q3 = frameOf p1 p2 p3 q1 q2 q3 ∧
     SrcFrame.distancesMatchSrc p1 p2 p3 q1 q2 q3 tol = distancesMatch p1 p2 p3 q1 q2 q3 tol :=
   ⟨frameSrc_eq p1 p2 p3 q1 q2 q3, distancesMatchSrc_eq p1 p2 p3 q1 q2 q3 tol⟩
+
+/-- [G] one column of `compute_jacobian` as the CURRENT source text computes it (perturb joint `i` by epsilon, forward
+kinematics of the robot handed in, position difference over epsilon, scaled axis of `perturbed * current⁻¹` over epsilon) and
+the wrench `Jacobian::torques` reads from an isometry are the model's `jacobianColumn` / `wrenchOfIso`, about which the C15
+theorems (geometric Jacobian, error bound, transpose law) are proved -/
+theorem jacobian_is_source (fwd : J6 R → Iso R) (q : J6 R) (eps : R) (i : Nat) (w : Iso R) :
+    SrcJac.jacobianColumnSrc fwd q eps i = ((jacobianColumn fwd q eps i).lin, (jacobianColumn fwd q eps i).ang) ∧
+    SrcJac.wrenchOfIsoSrc w = ((wrenchOfIso w).lin, (wrenchOfIso w).ang) :=
+  ⟨jacobianColumnSrc_eq fwd q eps i, wrenchOfIsoSrc_eq w⟩
 
 /-- [G] `Constraints::compliant` / `Constraints::filter` as the CURRENT source text defines them -/
 theorem constraints_compliant_is_source (c : Constraints R) (a : J6 R) (l : List (J6 R)) :
